@@ -97,7 +97,7 @@ def r2(ctx: Ctx) -> None:
         ctx.check(ok, f, f.node, "stepping order over the given markets", "[non-index markets..., index markets...] each stepped once", str(seq))
     g = ctx.func(UTM)
     n = 0
-    for p in normal_paths(ctx.paths(UTM)):
+    for p in normal_paths(ctx.paths(UTM, keep=("compute_fundamental_index", "get_fundamental_price"))):
         ups = [e for e in calls(p) if calls_target(e, UT)]
         ctx.check(len(ups) == 1 and key(strip_ver(ups[0].recv)) == "market", g, g.node, "exactly one clock step of the given market per call", "market._update_time(...) once", f"{len(ups)} step(s)")
         if len(ups) != 1:
